@@ -477,11 +477,14 @@ def make_harness(cls_name, Model_, apply_model_, apply_impl_, obs_impl_, obs_mod
             return Fail("init:" + d)
         for i, op in enumerate(ops):
             full = i >= n_ops - 2
-            if op[0] == "copy":
+            if op[0] in ("copy", "copy_keep"):
                 h2 = h.copy()
-                shadow = (h, m.clone())
-                h = h2
-                d = compare(obs_impl_(h, f, U, absent, cands, full), obs_model_(m, f, U, absent, cands, full))
+                if op[0] == "copy":
+                    shadow = (h, m.clone())  # continue on the copy; the source must stay as it is
+                    h = h2
+                else:
+                    shadow = (h2, m.clone())  # continue on the source; the copy must stay as it is
+                d = compare(obs_impl_(h2, f, U, absent, cands, full), obs_model_(m, f, U, absent, cands, full))
                 if d:
                     return Fail("copy:" + d)
                 continue
@@ -599,7 +602,7 @@ def abstract_state(m):
 def run_model(ops, weighted, Model_=None, apply_model_=None):
     m = (Model_ or Model)(weighted)
     for op in ops:
-        if op[0] == "copy":
+        if op[0] in ("copy", "copy_keep"):
             continue
         try:
             (apply_model_ or apply_model)(m, _concretise(op))
@@ -663,6 +666,7 @@ def gen_obligations(tier, seed, universes, alphabet_, run_model_, gen_filter, st
                     out.append({"family": "hist", "layer": "state", "universe": uni, "weighted": weighted,
                                 "ops": base + [op]})
         out.extend(detours(alpha, uni, weighted, rng, 14 if q else 80))
+        out.extend(pair_layers(alpha, uni, weighted, rng, q))
         for _ in range(n_long[0 if q else 1]):
             n = rng.randint(4, 6)
             out.append({"family": "hist", "layer": "seeded", "universe": uni, "weighted": weighted,
@@ -678,6 +682,35 @@ def gen_obligations(tier, seed, universes, alphabet_, run_model_, gen_filter, st
 
 
 UNIVERSES_ALL = {"int": [0, 1, 2], "str": ["a", "b", "c"]}
+
+
+def pair_layers(alpha, uni, weighted, rng, q):
+    """(a) a batch insertion followed by every single-target update (metadata dicts shared inside a batch);
+    (b) a small base, then copy (continue on the copy) or copy_keep (continue on the source), then a mutating
+    operation: the other object must not move and the continued one must keep answering correctly"""
+    out = []
+    batch = [o for o in alpha if o[0] in ("add_edges", "add_nodes")]
+    touch = [o for o in alpha if o[0] in ("set_attr_edge", "set_attr_node", "del_attr_edge", "del_attr_node",
+                                          "set_weight", "set_edge_metadata", "set_node_metadata")]
+    for b in batch:
+        sel = touch if not q else [touch[(i * 3 + len(str(b))) % len(touch)] for i in range(4)] if touch else []
+        for t in sel:
+            out.append({"family": "hist", "layer": "batch-touch", "universe": uni, "weighted": weighted,
+                        "ops": [b, t]})
+    adds = [o for o in alpha if o[0] == "add_edge" and o[-1] is None and ["remove_edge"] + o[1:-2] in alpha
+            and not isinstance(o[2] if len(o) > 4 else 0, dict) and (len(o) < 5 or not (isinstance(o[2], int) and o[2] < 0))]
+    muts = [o for o in alpha if o[0] in ("add_edge", "remove_edge", "remove_node", "set_weight", "set_attr_edge",
+                                         "set_attr_node", "add_node", "clear")]
+    if any(o[0] == "copy" for o in alpha) and len(adds) >= 3:
+        for i in range(10 if q else 60):
+            x, y = rng.sample(adds, 2)
+            cp = "copy" if i % 2 == 0 else "copy_keep"
+            then = [rng.choice(adds)] if i % 3 == 0 else [rng.choice(muts)]
+            if i % 4 == 3:
+                then.append(rng.choice(muts))
+            out.append({"family": "hist", "layer": "copy-then", "universe": uni, "weighted": weighted,
+                        "ops": [x, y, [cp]] + then})
+    return out
 
 
 def detours(alpha, uni, weighted, rng, n):
